@@ -426,6 +426,24 @@ Fixpoint eval (t : tree) : expr :=
   | TWedge a b => mk_wedge (eval a) (eval b)
   end.
 
+(* the degree of a program by the classical rules (the specification of infere_type) *)
+Definition opt_nat_eqb (a b : option nat) : bool :=
+  match a, b with Some x, Some y => Nat.eqb x y | _, _ => false end.
+Fixpoint tdeg (n : nat) (t : tree) : option nat :=
+  match t with
+  | TForm _ k _ => Some k
+  | TConst _ => Some 0%nat
+  | TScale _ t => tdeg n t
+  | TSum ts => match map (tdeg n) ts with
+               | [] => None
+               | r0 :: rest => if forallb (opt_nat_eqb r0) rest then r0 else None
+               end
+  | TD t => match tdeg n t with Some k => Some (S k) | None => None end
+  | TDelta t => match tdeg n t with Some (S k) => Some k | _ => None end
+  | THodge t => match tdeg n t with Some k => if Nat.leb k n then Some (n - k)%nat else None | None => None end
+  | TWedge a b => match tdeg n a, tdeg n b with Some k, Some l => Some (k + l)%nat | _, _ => None end
+  end.
+
 (* ------------------------------------------------------------------ raw sympy trees *)
 (* What the runner serialises: the implementation's result exactly as sympy stores it
    (args in sympy's order).  [norm] maps it to [expr], failing closed on anything that is
